@@ -86,6 +86,9 @@ class Result:
         self.rule = ""
         self.exhaustive = False
         self.tlc_runs = []
+        # replay files of earlier runs of this property are dropped: the directory holds the violations of the latest run only
+        import shutil
+        shutil.rmtree(os.path.join(WORK, "replays", prop), ignore_errors=True)
 
     def add_tlc(self, name, r):
         self.states += r["distinct"]
